@@ -2016,6 +2016,13 @@ func (cs *State) addVote(vote *types.Vote, peerID p2p.ID) (added bool, err error
 			return
 		}
 
+		if cs.LastCommit == nil {
+			// We are at the chain's initial height: there is no previous height
+			// whose precommits we could be collecting, whatever the peer claims.
+			cs.Logger.Debug("precommit vote for a height below the initial height has been ignored", "vote", vote)
+			return
+		}
+
 		added, err = cs.LastCommit.AddVote(vote)
 		if !added {
 			return
